@@ -16,8 +16,9 @@ RULE = ("1-3 Directory volumes (any mix of read-only / writable / marked full, r
         "target blocks whose copies are planted per volume as intact / single bit flip / truncation / appended "
         "bytes (also past BlockSize, as sparse files) / another valid block under the name / zero-length / missing "
         "(plus a real MD5 collision pair; one block in ten is the empty block), "
-        "followed by 1-6 GET/HEAD/PUT requests (PUT with matching body, corrupted body, new block, unknown "
-        "length); exhaustive bit-flip and truncation sweeps over one small block per run; thorough adds sizes "
+        "followed by 1-6 GET/HEAD/PUT requests (PUT with matching body, corrupted body incl. the bytes of a planted "
+        "corrupt copy, new block, unknown length); blocks of 2^18, k*2^20 and k*2^20+1 bytes (read boundaries of "
+        "collision.go) in six corruption scenarios; exhaustive bit-flip and truncation sweeps over one small block per run; thorough adds sizes "
         "around 2^15, 2^16, 2^18, 2^20 and BlockSize-1/BlockSize/BlockSize+1. A case is non-trivial when it "
         "plants at least one non-intact copy or contains a PUT; distinct = distinct case line")
 ASSUMPTIONS = [
@@ -68,16 +69,29 @@ def lit(b):
     return Content("x" + b.hex(), hashlib.md5(b).hexdigest(), len(b))
 
 
+_BASE_CACHE = {}
+
+
+def _base(seed, n):
+    """md5(seed) repeated to n bytes, page number xor-ed into the first 8 bytes of each 4 KiB page"""
+    key = (seed, n)
+    if key not in _BASE_CACHE:
+        pat = hashlib.md5(seed.encode()).digest()
+        buf = bytearray((pat * (n // 16 + 1))[:n])
+        for k in range(1, n // 4096 + 1):
+            off = k * 4096
+            if off + 8 <= n:
+                buf[off:off + 8] = (int.from_bytes(buf[off:off + 8], "little") ^ k).to_bytes(8, "little")
+        if len(_BASE_CACHE) >= 4:
+            _BASE_CACHE.clear()
+        _BASE_CACHE[key] = bytes(buf)
+    return bytearray(_BASE_CACHE[key])
+
+
 def _expand(gen):
     ops = gen.split("~")
     seed, n = ops[0][1:].split("n")
-    pat = hashlib.md5(seed.encode()).digest()
-    n = int(n)
-    buf = bytearray((pat * (n // 16 + 1))[:n])
-    for k in range(n // 4096 + 1):  # every 4 KiB page distinct
-        off = k * 4096
-        if off + 8 <= n:
-            buf[off:off + 8] = bytes(a ^ b for a, b in zip(buf[off:off + 8], k.to_bytes(8, "little")))
+    buf = _base(seed, int(n))
     for op in ops[1:]:
         if op[0] == "f":
             p = int(op[1:])
@@ -251,8 +265,13 @@ def _random_case(rng, fac, sizes, collision=False):
         elif r < 0.72:
             reqs.append(f"P:{b.md5}:{b.spec}")
         elif r < 0.82:
-            k = rng.choice(["flip", "trunc", "append", "other", "empty"])
-            c, _ = _corrupt(rng, fac, b, k, other_of.get(b.md5))
+            planted = [c for _, _, fs in vols for hh, c in fs if hh == b.md5 and c.md5 != b.md5]
+            if planted and rng.random() < 0.4:
+                # the body is byte-identical to a corrupt copy already stored under the name
+                c = rng.choice(planted)
+            else:
+                k = rng.choice(["flip", "trunc", "append", "other", "empty"])
+                c, _ = _corrupt(rng, fac, b, k, other_of.get(b.md5))
             reqs.append(f"P:{b.md5}:{c.spec}")
         elif r < 0.88:
             nb = fac.fresh(rng.choice(sizes))
@@ -377,17 +396,19 @@ def generate(rng, tier):
         cases += _sweep_cases(rng, litf, n)
     # a few symbolic-content cases in every tier (keeps that path of both drivers exercised)
     for i in range(12 if tier == "quick" else 200):
-        cases.append(_random_case(rng, symf, [0, 1, 1023, 1024, 1025, 4096, 32767, 32768, 32769, 65535, 65536, 65537]))
+        cases.append(_random_case(rng, symf, [0, 1, 1023, 1024, 1025, 4096, 32767, 32768, 32769, 65535, 65536, 65537,
+                                                   1 << 18, 1 << 20]))
     # blocks longer than compareReaderWithBuf's 1 MiB buffer (several reads per comparison)
-    for n in ((1 << 20) + 1, (2 << 20) + 1):
-        for scen in (0, 3, 5):
+    # and blocks whose end coincides with a read boundary of collision.go's buffers (1<<18, k<<20)
+    for n in (1 << 18, 1 << 20, (1 << 20) + 1, 2 << 20, (2 << 20) + 1):
+        for scen in range(6):
             cases.append(_boundary_case(rng, symf, n, scen + 6 * rng.randrange(4)))
     # copies extended past BlockSize (TooLongError paths of stat / Get / Compare)
     for _ in range(10 if tier == "quick" else 80):
         cases.append(_oversize_case(rng, symf))
     if tier != "quick":
         mids = [32767, 32768, 32769, 65535, 65536, 65537, (1 << 18) - 1, 1 << 18, (1 << 18) + 1,
-                (1 << 20) - 1, 1 << 20, (1 << 20) + 1, (2 << 20) + 1]
+                (1 << 20) - 1, 1 << 20, (1 << 20) + 1, 2 << 20, (2 << 20) + 1, 3 << 20, 4 << 20]
         for n in mids:
             for scen in range(6):
                 cases.append(_boundary_case(rng, symf, n, scen + 6 * rng.randrange(4)))
